@@ -419,6 +419,39 @@ class VInterp(sym.Interp):
                 return sym.Variant("Some", [v])
             if d.startswith("std::any::TypeId"):
                 return sym.Opaque("typeid:" + (n["f"].get("gargs") or ["?"])[0])
+            if d in ("std::iter::once", "core::iter::once"):
+                return LazyIter([self.deref(self.ev(n["args"][0]))])
+            if d in ("std::iter::empty", "core::iter::empty"):
+                return LazyIter([])
+            if d in ("std::iter::repeat", "core::iter::repeat"):
+                return RepeatIter(self.deref(self.ev(n["args"][0])))
+            if d in ("std::iter::repeat_n", "core::iter::repeat_n"):
+                return LazyIter([self.deref(self.ev(n["args"][0]))] * int(self.ev(n["args"][1])))
+            if d in ("std::cmp::min", "std::cmp::max", "core::cmp::min", "core::cmp::max", "std::cmp::Ord::min", "std::cmp::Ord::max"):
+                a, b = self.num(self.ev(n["args"][0]), n), self.num(self.ev(n["args"][1]), n)
+                if a.is_number and b.is_number:
+                    return (min if last == "min" else max)(a, b)
+                return (sp.Min if last == "min" else sp.Max)(a, b)
+            if d in ("std::mem::replace", "core::mem::replace"):
+                tgt = n["args"][0]
+                tgt = peel(tgt)["e"] if peel(tgt).get("k") == "Ref" else tgt
+                old_ = self.deref(self.ev(tgt))
+                self.assign(tgt, self.deref(self.ev(n["args"][1])), n)
+                return old_
+            if d in ("std::mem::take", "core::mem::take"):
+                tgt = n["args"][0]
+                tgt = peel(tgt)["e"] if peel(tgt).get("k") == "Ref" else tgt
+                old_ = self.deref(self.ev(tgt))
+                self.assign(tgt, [] if isinstance(old_, list) else sp.Integer(0), n)
+                return old_
+            if d in ("std::mem::swap", "core::mem::swap"):
+                a_, b_ = n["args"]
+                a_ = peel(a_)["e"] if peel(a_).get("k") == "Ref" else a_
+                b_ = peel(b_)["e"] if peel(b_).get("k") == "Ref" else b_
+                va, vb = self.deref(self.ev(a_)), self.deref(self.ev(b_))
+                self.assign(a_, vb, n)
+                self.assign(b_, va, n)
+                return None
             if d in self.F.by_path and len(self.F.by_path[d]) == 1:
                 return self.inline_fn(self.F.by_path[d][0], [self.ev(a) for a in n["args"]], n)
             if d == "std::iter::FromIterator::from_iter":
@@ -524,6 +557,16 @@ class VInterp(sym.Interp):
             r = self.iter_method(n, name, rv)
             if r is not NotImplemented:
                 return r
+        if isinstance(rv, RepeatIter):
+            if name == "take":
+                return LazyIter([rv.value] * int(self.ev(n["args"][0])))
+            if name == "zip":
+                o = self.deref(self.ev(n["args"][0]))
+                o = o.items if isinstance(o, LazyIter) else list(o)
+                return LazyIter([(rv.value, x) for x in o])
+            if name in ("copied", "cloned", "by_ref"):
+                return rv
+            raise sym.Unsupported(n, "unbounded repeat() consumed by %s" % name)
         if isinstance(rv, tuple) and rv and rv[0] == "range":
             items = LazyIter([sp.Integer(i) for i in range(int(rv[1]), int(rv[2]))])
             r = self.iter_method(n, name, items)
@@ -540,6 +583,41 @@ class VInterp(sym.Interp):
                 return sp.true if rv.name == "Some" else sp.false
             if name == "is_none":
                 return sp.true if rv.name == "None" else sp.false
+            if name in ("is_ok", "is_err"):
+                return sp.true if (rv.name == "Ok") == (name == "is_ok") else sp.false
+            if name in ("unwrap_or", "unwrap_or_default", "unwrap_or_else"):
+                if rv.name in ("Some", "Ok"):
+                    return rv.args[0]
+                if name == "unwrap_or":
+                    return self.ev(n["args"][0])
+                if name == "unwrap_or_else":
+                    return self.apply_closure(self._closure_arg(n), [] if rv.name == "None" else list(rv.args), n)
+                return sp.Integer(0)
+            if name in ("map", "and_then") and rv.name in ("Some", "Ok", "None", "Err"):
+                if rv.name in ("None", "Err"):
+                    return rv
+                r_ = self.apply_closure(self._closure_arg(n), [rv.args[0]], n)
+                return r_ if name == "and_then" else sym.Variant(rv.name, [r_])
+            if name == "filter" and rv.name in ("Some", "None"):
+                if rv.name == "None":
+                    return rv
+                return rv if self.decide(self.apply_closure(self._closure_arg(n), [rv.args[0]], n), n) else sym.Variant("None")
+            if name in ("is_some_and", "is_ok_and", "map_or"):
+                if name == "map_or":
+                    return self.apply_closure(self._closure_arg(n, 1), [rv.args[0]], n) if rv.name in ("Some", "Ok") else self.ev(n["args"][0])
+                if rv.name not in ("Some", "Ok"):
+                    return sp.false
+                return self.apply_closure(self._closure_arg(n), [rv.args[0]], n)
+            if name in ("or_else", "or") and rv.name in ("Some", "Ok", "None", "Err"):
+                if rv.name in ("Some", "Ok"):
+                    return rv
+                return self.ev(n["args"][0]) if name == "or" else self.apply_closure(self._closure_arg(n), [] if rv.name == "None" else list(rv.args), n)
+            if name == "ok":
+                return sym.Variant("Some", list(rv.args)) if rv.name == "Ok" else sym.Variant("None")
+            if name in ("copied", "cloned", "as_ref", "as_mut", "take"):
+                return rv
+            if name in ("iter", "into_iter"):
+                return LazyIter(list(rv.args) if rv.name in ("Some", "Ok") else [])
         if isinstance(rv, dict) and name == "clone":
             return clone_val(rv)
         if name in ("clone", "to_owned", "copied", "cloned", "borrow", "as_ref", "into", "real", "to_real") and not isinstance(rv, (dict,)):
@@ -645,7 +723,82 @@ class VInterp(sym.Interp):
         if name == "truncate":
             del v[int(self.ev(n["args"][0])):]
             return None
+        if name == "windows":
+            k = int(self.ev(n["args"][0]))
+            if k <= 0:
+                raise IndexPanic(n, "windows(0)")
+            return LazyIter([list(v[i:i + k]) for i in range(0, len(v) - k + 1)])
+        if name in ("chunks", "chunks_exact"):
+            k = int(self.ev(n["args"][0]))
+            if k <= 0:
+                raise IndexPanic(n, "chunks(0)")
+            out = [list(v[i:i + k]) for i in range(0, len(v), k)]
+            if name == "chunks_exact":
+                out = [c for c in out if len(c) == k]
+            return LazyIter(out)
+        if name in ("split_last", "split_first"):
+            if not v:
+                return sym.Variant("None")
+            return sym.Variant("Some", [(v[-1], list(v[:-1])) if name == "split_last" else (v[0], list(v[1:]))])
+        if name == "split_at":
+            k = int(self.ev(n["args"][0]))
+            if k > len(v):
+                raise IndexPanic(n, "split_at(%d) on a slice of length %d" % (k, len(v)))
+            return (list(v[:k]), list(v[k:]))
+        if name in ("extend", "extend_from_slice", "append"):
+            src = self.deref(self.ev(n["args"][0]))
+            src = src.items if isinstance(src, LazyIter) else list(src)
+            v.extend(self.deref(x) for x in src)
+            if name == "append" and isinstance(src, list):
+                del src[:]
+            return None
+        if name == "resize":
+            k = int(self.ev(n["args"][0]))
+            fill = self.deref(self.ev(n["args"][1]))
+            if k < len(v):
+                del v[k:]
+            else:
+                v.extend([fill] * (k - len(v)))
+            return None
+        if name == "swap":
+            i, j = int(self.ev(n["args"][0])), int(self.ev(n["args"][1]))
+            if max(i, j) >= len(v):
+                raise IndexPanic(n, "swap index out of bounds")
+            v[i], v[j] = v[j], v[i]
+            return None
+        if name == "remove":
+            i = int(self.ev(n["args"][0]))
+            if i >= len(v):
+                raise IndexPanic(n, "remove index out of bounds")
+            return v.pop(i)
+        if name == "get":
+            i = self.ev(n["args"][0])
+            if getattr(i, "is_Integer", False):
+                return sym.Variant("Some", [v[int(i)]]) if 0 <= int(i) < len(v) else sym.Variant("None")
+        if name in ("fill",):
+            x = self.deref(self.ev(n["args"][0]))
+            for i in range(len(v)):
+                v[i] = x
+            return None
+        if name in ("concat",):
+            out = []
+            for x in v:
+                out.extend(x)
+            return out
+        # any other iterator adaptor applied directly to a Vec / slice value (IntoIterator)
+        r = self.iter_method(n, name, LazyIter(list(v)))
+        if r is not NotImplemented:
+            return r
         return NotImplemented
+
+    def _closure_arg(self, n, k=0):
+        fn = n["args"][k]
+        if fn.get("k") == "Closure":
+            return sym.ClosureVal(fn, None)
+        v = self.ev(fn)
+        if isinstance(v, sym.ClosureVal):
+            return v
+        raise sym.Unsupported(n, "callable argument %s" % pp(fn)[:40])
 
     def iter_method(self, n, name, it):
         items = it.items
@@ -665,6 +818,8 @@ class VInterp(sym.Interp):
             return LazyIter([(sp.Integer(i), x) for i, x in enumerate(items)])
         if name == "zip":
             o = self.deref(self.ev(n["args"][0]))
+            if isinstance(o, RepeatIter):
+                return LazyIter([(x, o.value) for x in items])
             o = o.items if isinstance(o, LazyIter) else list(o)
             return LazyIter(list(zip(items, o)))
         if name == "map":
@@ -676,6 +831,11 @@ class VInterp(sym.Interp):
                 last = fp["def"].split("::")[-1]
                 if last in sym.TRANSPARENT_CALLS:
                     return LazyIter([self.deref(x) for x in items])
+                if fp["def"] in self.F.by_path and len(self.F.by_path[fp["def"]]) == 1:
+                    return LazyIter([self.inline_fn(self.F.by_path[fp["def"]][0], [self.deref(x)], n) for x in items])
+            v_ = self.ev(fn)
+            if isinstance(v_, sym.ClosureVal):
+                return LazyIter([self.apply_closure(v_, [x], n) for x in items])
             raise sym.Unsupported(n, "map with %s" % pp(fn)[:40])
         if name == "filter":
             fn = n["args"][0]
@@ -706,8 +866,93 @@ class VInterp(sym.Interp):
             return sym.Variant("Some", [items[-1]]) if items else sym.Variant("None")
         if name == "next":
             return sym.Variant("Some", [items.pop(0)]) if items else sym.Variant("None")
+        if name == "position" or name == "rposition":
+            cv = self._closure_arg(n)
+            idxs = range(len(items)) if name == "position" else range(len(items) - 1, -1, -1)
+            for i in idxs:
+                if self.decide(self.apply_closure(cv, [items[i]], n), n):
+                    return sym.Variant("Some", [sp.Integer(i)])
+            return sym.Variant("None")
+        if name == "find":
+            cv = self._closure_arg(n)
+            for x in items:
+                if self.decide(self.apply_closure(cv, [x], n), n):
+                    return sym.Variant("Some", [x])
+            return sym.Variant("None")
+        if name == "find_map":
+            cv = self._closure_arg(n)
+            for x in items:
+                r = self.apply_closure(cv, [x], n)
+                if isinstance(r, sym.Variant) and r.name == "Some":
+                    return r
+                if not (isinstance(r, sym.Variant) and r.name == "None"):
+                    raise sym.Unsupported(n, "find_map closure result %r" % (r,))
+            return sym.Variant("None")
+        if name == "filter_map":
+            cv = self._closure_arg(n)
+            out = []
+            for x in items:
+                r = self.apply_closure(cv, [x], n)
+                if isinstance(r, sym.Variant) and r.name == "Some":
+                    out.append(r.args[0])
+                elif not (isinstance(r, sym.Variant) and r.name == "None"):
+                    raise sym.Unsupported(n, "filter_map closure result %r" % (r,))
+            return LazyIter(out)
+        if name == "chain":
+            o = self.deref(self.ev(n["args"][0]))
+            o = o.items if isinstance(o, LazyIter) else (list(o) if isinstance(o, list) else None)
+            if o is None:
+                raise sym.Unsupported(n, "chain with a non-sequence")
+            return LazyIter(list(items) + list(o))
+        if name == "for_each":
+            cv = self._closure_arg(n)
+            for x in items:
+                self.apply_closure(cv, [x], n)
+            return None
+        if name == "product":
+            acc = sp.Integer(1)
+            for x in items:
+                acc = acc * self.deref(x)
+            ty = n.get("ty") or ""
+            bits = {"u8": 8, "u16": 16, "u32": 32, "u64": 64, "usize": 64}.get(ty)
+            if bits and getattr(acc, "is_Integer", False) and acc >= 2 ** bits:
+                raise IndexPanic(n, "integer product overflows %s" % ty)
+            return acc
+        if name in ("min", "max") and not n["args"]:
+            vals = [self.deref(x) for x in items]
+            if not vals:
+                return sym.Variant("None")
+            if all(getattr(x, "is_number", False) for x in vals):
+                return sym.Variant("Some", [(min if name == "min" else max)(vals)])
+            raise sym.Unsupported(n, "min/max of symbolic values")
+        if name == "nth":
+            i = int(self.ev(n["args"][0]))
+            return sym.Variant("Some", [items[i]]) if i < len(items) else sym.Variant("None")
+        if name == "peekable" or name == "fuse":
+            return it
+        if name == "unzip":
+            vals = [self.deref(x) for x in items]
+            return ([a for a, _ in vals], [b for _, b in vals])
+        if name == "flatten":
+            out = []
+            for x in items:
+                x = self.deref(x)
+                if isinstance(x, sym.Variant):
+                    if x.name in ("Some", "Ok"):
+                        out.append(x.args[0])
+                    continue
+                out.extend(x.items if isinstance(x, LazyIter) else list(x))
+            return LazyIter(out)
         if name == "collect":
             vals = [self.deref(x) for x in items]
+            ty = n.get("ty") or ""
+            if (ty.startswith("std::result::Result<") or ty.startswith("std::option::Option<")) and vals and all(isinstance(x, sym.Variant) for x in vals):
+                # collect::<Result<_, _>>(): the first Err / None wins, otherwise the collected payloads
+                good = "Ok" if ty.startswith("std::result") else "Some"
+                for x in vals:
+                    if x.name != good:
+                        return x
+                return sym.Variant(good, [[x.args[0] for x in vals]])
             ty = n.get("ty") or ""
             if "Polynomial<" in ty and not ty.startswith("std::vec::Vec") and "Result<" not in ty:
                 c = [b for b in self.F.bodies if b["name"] == "from_iter" and "FromIterator" in (b.get("impl_trait") or "") and "Polynomial" in (b.get("impl_self") or "")]
@@ -721,6 +966,12 @@ class VInterp(sym.Interp):
 class LazyIter:
     def __init__(self, items):
         self.items = list(items)
+
+
+class RepeatIter:
+    """std::iter::repeat(x): only meaningful once bounded by take(k) / zip(finite)."""
+    def __init__(self, value):
+        self.value = value
 
 
 class IndexPanic(Exception):
